@@ -112,7 +112,13 @@ func genScript(c *scriptCase) {
 				tok(fmt.Sprintf("ie%d", k), "", fmt.Sprintf("yn(interface_exists(\"%s\\\\I%d\", false))", scriptNS, k))
 			case x == 5:
 				// a function of the main file: registered before any coroutine started
-				tok("fe", "y", fmt.Sprintf("yn(function_exists(\"%s\\\\work%d\"))", scriptNS, r.Intn(c.G)))
+				// half of the time by its fully qualified "\\ns\\name" spelling (the lookup's fallback branch)
+				bs := ""
+				if r.Intn(2) == 0 {
+					bs = "\\\\"
+				}
+				tok("fe", "y", fmt.Sprintf("yn(function_exists(\"%s%s\\\\work%d\"))", bs, scriptNS, r.Intn(c.G)))
+				tok("sl", "3", "\\strlen(\"abc\")")
 			case x == 6:
 				if !required {
 					fmt.Fprintf(&sb, "  require_once __DIR__ . \"/lib%d.php\";\n", g)
@@ -122,7 +128,7 @@ func genScript(c *scriptCase) {
 				tok("lfe", "y", fmt.Sprintf("yn(function_exists(\"%s\\\\libg%d\"))", scriptNS, g))
 			case x == 7:
 				o := r.Intn(c.G)
-				tok(fmt.Sprintf("ofe%d", o), "", fmt.Sprintf("yn(function_exists(\"%s\\\\libf%d\"))", scriptNS, o))
+				tok(fmt.Sprintf("ofe%d", o), "", fmt.Sprintf("yn(function_exists(\"\\\\%s\\\\libf%d\"))", scriptNS, o))
 			case x == 8 || x == 9:
 				s := r.Intn(c.shared)
 				if definedShared[s] {
@@ -252,7 +258,7 @@ func (c *scriptCase) judgeOutput(stdout string) (anoms [][2]string, complete boo
 			default:
 				if val != ex.want {
 					what := map[string]string{
-						"new": "a method of the freshly instantiated autoloaded class returned", "fe": "function_exists of a function of the main script returned",
+						"new": "a method of the freshly instantiated autoloaded class returned", "fe": "function_exists of a function of the main script returned", "sl": "the fully qualified call \\strlen(\"abc\") returned",
 						"lf": "a function registered by this coroutine's own require_once returned", "lfe": "function_exists of a function registered by this coroutine's own require_once returned",
 						"dd": "defined() after this coroutine's own define() attempt of a shared name returned", "do": "define() of a name only this coroutine uses returned",
 						"dod": "defined() of the constant this coroutine just defined returned", "g": "a global bound with `global` read",
